@@ -1294,7 +1294,7 @@ func (fr *Frame) eventAsserts(event string, st *State, pos token.Pos, vars ...ma
 		fr = fx.topFrame
 	}
 	for _, a := range fx.contract.Asserts {
-		if strings.HasPrefix(a.Anchor, "call:") || strings.HasPrefix(a.Anchor, "store:") || !globMatch(a.Anchor, event) {
+		if strings.HasPrefix(a.Anchor, "call:") || strings.HasPrefix(a.Anchor, "store:") || strings.HasPrefix(a.Anchor, "setfield:") || !globMatch(a.Anchor, event) {
 			continue
 		}
 		fx.anchorHit(a.Anchor)
@@ -1330,7 +1330,7 @@ func (fr *Frame) eventAsserts(event string, st *State, pos token.Pos, vars ...ma
 func (fr *Frame) storeAsserts(event string, st *State, pos token.Pos, blk *ssa.BasicBlock, stored, target SVal) {
 	fx := fr.fx
 	for _, a := range fx.contract.Asserts {
-		if !strings.HasPrefix(a.Anchor, "store:") || !globMatch(a.Anchor, event) {
+		if !(strings.HasPrefix(a.Anchor, "store:") || strings.HasPrefix(a.Anchor, "setfield:")) || !globMatch(a.Anchor, event) {
 			continue
 		}
 		fx.anchorHit(a.Anchor)
